@@ -162,8 +162,7 @@ func fieldCmpConst(bo *ssa.BinOp, recv ssa.Value) (string, int64, token.Token, b
 			return "", 0, op, false
 		}
 		k, _ := constant.Int64Val(cst.Value)
-		st := fa.X.Type().Underlying().(*types.Pointer).Elem().Underlying().(*types.Struct)
-		return st.Field(fa.Field).Name(), k, op, true
+		return fieldName(fa.X.Type().Underlying().(*types.Pointer).Elem(), fa.Field), k, op, true
 	}
 	if f, k, op, ok := try(bo.X, bo.Y, bo.Op); ok {
 		return f, k, op, true
